@@ -5,6 +5,11 @@ import os
 
 def run(ctx):
     scen = ctx.gen("Services", "Services.tla", "Gen_C12.cfg" if ctx.quick else "Gen_C12_thorough.cfg", "svc", workers=4, timeout=2400)
+    # longer histories over the analyser alone: two models that share a units name (a reused analyser must not remember the first)
+    scen2 = ctx.gen("Services", "Services.tla", "Gen_C12_analyser.cfg", "svcan", workers=4, timeout=2400)
+    with open(scen, "a") as out:
+        for line in open(scen2):
+            out.write(line)
     ctx.sample(scen, 3)
     trace = ctx.execute("services", scen)      # one fresh process per call sequence
     # (1) per shard: inputs unchanged, results functional within the shard
@@ -34,5 +39,5 @@ def run(ctx):
     ctx.finish("model_checking",
                "every sequence of %d service calls (parse strict/permissive, validate, analyse, generate C/Python, print plain/auto-ids, resolve, flatten; fresh and reused instances) over %d pool documents, "
                "each sequence in a fresh process; the result digest (canonical model dump + exact math strings + issue list) of each call must be a function of (operation, argument digests, documented instance state) "
-               "over the whole corpus, and every input model digest must be unchanged; non-trivial = distinct (key, result) observations" % ((3, 5) if ctx.quick else (4, 4)),
+               "over the whole corpus, and every input model digest must be unchanged; non-trivial = distinct (key, result) observations" % ((3, 7) if ctx.quick else (4, 6)),
                ["digests are FNV-1a of canonical dumps made with public getters", "the corpus-wide functional check is one TLC run over the de-duplicated observations"])
